@@ -14,6 +14,14 @@ must carry the same rotated Hamiltonian (confluence).  Two routes per state (dif
 on a pristine dict holding the rotated h1/chol; (ii) the user's loop  ham_data = ham.rotate_orbs(ham_data, C); ham_data =
 ham.build_measurement_intermediates(ham_data, trial, wave_data)  on the SAME dict, so rotate_orbs receives the parent
 state's intermediates (rot_h1, rot_chol, ...) and the public handler has to replace every one of them.
+
+Part C (job_history, seqmc): call histories on ONE source dict.  For every word of length 1..L over a small matrix menu
+(orthogonal, invertible non-orthogonal, identity, permutation, Givens), on a raw source dict and on one that already holds
+measurement intermediates: (i) after every rotate_orbs call the dict that was passed in is unchanged (same keys, every array
+bitwise equal to a separately held NumPy copy) and the returned h1/chol equal the congruence computed from the held copies;
+(ii) same-source route: every matrix applied to the same source dict gives the congruence of the held original with that
+matrix; chained route: rotating the result again gives the congruence with the product; (iii) overlap / energy / force bias
+measured from the source dict after the calls equal those measured before.
 """
 
 import itertools
@@ -26,7 +34,9 @@ from mc.core import Result
 
 ID = "C15"
 TECHNIQUE = ("exhaustive basis x polarisation-set enumeration of the congruence rotate_orbs = C^T X C; breadth-first search over words of "
-             "rotation generators applied cumulatively, invariants (energy, force bias, overlap ratio) checked in every state")
+             "rotation generators applied cumulatively, invariants (energy, force bias, overlap ratio) checked in every state on two routes "
+             "(pristine dict / dict carrying the parent's intermediates); every call history up to a length over a matrix menu on ONE source "
+             "dict (input dict bitwise unchanged after each call, result = congruence of the held original, chained = product)")
 TOL = 1e-9
 TOL_CONG = 1e-12
 KINDS = ["rhf", "uhf", "ghf", "noci"]
@@ -379,8 +389,132 @@ def job_covariance(cfg):
     return res
 
 
+# ----------------------------------------------------------------------------- part C: call histories on ONE source dict
+def history_menu(n, seed):
+    """Small menu of rotation matrices: orthogonal, invertible non-orthogonal, identity, a permutation, a Givens rotation."""
+    perm = np.eye(n)[:, list(range(1, n)) + [0]]
+    return [("frame", al.frame(n, seed, 9)), ("dense", dense_C(n, seed, 0)), ("identity", np.eye(n)), ("perm", perm),
+            ("G(0,1,0.3)", al.givens(n, 0, 1, 0.3))]
+
+
+def hold(d):
+    """Separately held NumPy copies of every leaf of a ham_data dict."""
+    return {k: [np.array(x, copy=True) for x in _leaves(v)] for k, v in d.items()}
+
+
+def modified_keys(d, held):
+    """Keys of d that are missing / new / not bitwise equal to the held copies."""
+    bad = [k for k in held if k not in d] + [k for k in d if k not in held]
+    for k in held:
+        if k in d:
+            lv = _leaves(d[k])
+            if len(lv) != len(held[k]) or any(a.shape != b.shape or a.dtype != b.dtype or not np.array_equal(a, b, equal_nan=True)
+                                              for a, b in zip(lv, held[k])):
+                bad.append(k)
+    return sorted(set(bad))
+
+
+def congruence_of(held, M, n):
+    h1 = held["h1"][0]
+    chol = held["chol"][0].reshape(-1, n, n)
+    return np.einsum("pi,spq,qj->sij", M, h1, M), np.einsum("pi,gpq,qj->gij", M, chol, M)
+
+
+def history_source(ham, trial, wd, raw0, n, flavour):
+    """The user's source dictionary: raw integrals, or raw integrals + measurement intermediates of the original basis."""
+    jnp, wf = trials.lib()
+    if flavour == "with-intermediates":
+        return fresh_full(ham, trial, wd, raw0, n)
+    return {"h0": raw0["h0"], "h1": jnp.asarray(np.asarray(raw0["h1"], dtype=float)),
+            "chol": jnp.asarray(np.asarray(raw0["chol"], dtype=float).reshape(len(raw0["chol"]), n * n)), "ene0": 0.0}
+
+
+def history_word(ham, trial, wd, raw0, W0, modes, n, flavour, route, word, menu):
+    """One history.  route 'same-source': every matrix of the word is applied to the SAME source dict (each result = congruence
+    of the held original with that matrix).  route 'chained': the result is rotated again (result = congruence with the product).
+    After EVERY call: the dict that was passed in is unchanged (keys, every array bitwise equal to its held copy) and the returned
+    h1/chol equal the congruence computed from the held copies.  Finally the original-basis energy / force bias measured from
+    the source dict equal those measured before the calls.  Returns (signature or None, detail, n_calls)."""
+    jnp, wf = trials.lib()
+    src = history_source(ham, trial, wd, raw0, n, flavour)
+    held_src = hold(src)
+
+    def meas(d):
+        full = d if flavour == "with-intermediates" else ham.build_measurement_intermediates(d, trial, wd)
+        return {m: measure_with(trial, wd, full, m, W0[m]) for m in modes}
+
+    before = meas(src)
+    bad = modified_keys(src, held_src)
+    if bad:
+        return "build_measurement_intermediates:input-dict-modified", dict(keys=bad), 0
+    cur, held_cur, M = src, held_src, np.eye(n)
+    calls = 0
+    for k, li in enumerate(word):
+        C = menu[li][1]
+        inp, held_inp = (src, held_src) if route == "same-source" else (cur, held_cur)
+        Mref = C if route == "same-source" else M @ C
+        out = ham.rotate_orbs(inp, jnp.asarray(np.asarray(C, dtype=float)))
+        calls += 1
+        bad = modified_keys(inp, held_inp)
+        if bad:
+            return "rotate_orbs:input-dict-modified", dict(keys=bad, call=k, matrix=menu[li][0], returned_is_input=bool(out is inp)), calls
+        bad = modified_keys(src, held_src)
+        if bad:
+            return "rotate_orbs:source-dict-modified-by-later-call", dict(keys=bad, call=k, matrix=menu[li][0]), calls
+        ref_h1, ref_chol = congruence_of(held_src, Mref, n)
+        sc = max(1.0, np.abs(ref_h1).max(), np.abs(ref_chol).max())
+        o_h1, o_chol = np.asarray(out["h1"]), np.asarray(out["chol"]).reshape(-1, n, n)
+        for slot, e in (("h1", np.abs(o_h1 - ref_h1).max() / sc), ("chol", np.abs(o_chol - ref_chol).max() / sc)):
+            if not e <= 1e-11:
+                return "rotate_orbs:congruence/%s" % slot, dict(err=float(e), call=k, matrix=menu[li][0]), calls
+        extra = sorted(set(out.keys()) ^ set(inp.keys()))
+        if extra or float(out["h0"]) != float(np.asarray(held_src["h0"][0])):
+            return "rotate_orbs:keys-or-h0-changed", dict(keys=extra), calls
+        cur, held_cur, M = out, hold(out), Mref
+    after = meas(src)
+    bad = modified_keys(src, held_src)
+    if bad:
+        return "build_measurement_intermediates:input-dict-modified", dict(keys=bad), calls
+    for m in modes:
+        for name, a, b in zip(("overlap", "energy", "force_bias"), after[m], before[m]):
+            if not (np.isfinite(a).all() and np.abs(a - b).max() <= 1e-12 * max(1.0, np.abs(b).max())):
+                return "rotate_orbs:source-dict-measurements-changed/%s" % name, dict(mode=m, err=float(np.abs(a - b).max())), calls
+    return None, {}, calls
+
+
+def job_history(cfg):
+    res = Result()
+    n, seed, L = cfg["n"], cfg["seed"], cfg["length"]
+    tc, p, modes, raw0, W0 = cov_setup(cfg)
+    trial = gridmc.trial_for(tc, len(tc.params) - 1)
+    ham = ham_handler(n)
+    menu = history_menu(n, seed)
+    only = cfg.get("only")
+    for flavour in ("raw", "with-intermediates"):
+        for route in ("same-source", "chained"):
+            for length in range(1, L + 1):
+                for word in itertools.product(range(len(menu)), repeat=length):
+                    if route == "chained" and length == 1:
+                        continue  # identical to the same-source word of length 1
+                    if only and (only != [flavour, route, list(word)]):
+                        continue
+                    sig, det, calls = history_word(ham, trial, p.wave_data, raw0, W0, modes, n, flavour, route, list(word), menu)
+                    res.add(states=1, transitions=calls, evaluations=3 * calls + 2 * len(modes), traces=calls + 2)
+                    res.guard("history_words_%s" % route)
+                    res.guard("history_calls_on_a_dict_rotated_from_before", max(calls - 1, 0))
+                    res.nontrivial((n, cfg["kind"], flavour, route, word))
+                    if sig:
+                        res.violation(sig, dict(cfg, what="history", flavour=flavour, route=route, word=list(word)),
+                                      dict(det, word=[menu[k][0] for k in word], flavour=flavour, route=route))
+    res.sample(dict(part="history", kind=cfg["kind"], n=n, nelec=[cfg["na"], cfg["nb"]], menu=[m[0] for m in menu], max_length=L,
+                    flavours=["raw", "with-intermediates"], routes=["same-source", "chained"]))
+    return res
+
+
 # ----------------------------------------------------------------------------- driver
 def job(cfg):
+    if cfg["part"] == "history":
+        return job_history(cfg)
     return job_congruence(cfg) if cfg["part"] == "congruence" else job_covariance(cfg)
 
 
@@ -398,6 +532,9 @@ def configs(tier, seed):
             for v in variants:
                 depth = (4 if n <= 3 else 3) if thorough else (3 if n <= 3 else 2)
                 out.append(dict(part="covariance", kind=kind, n=n, na=na, nb=nb, variant=v, n_chol=2, depth=depth, seed=seed, tier=tier))
+    hist = [("rhf", 2, 1, 1, ""), ("uhf", 3, 2, 1, "")] + ([("noci", 3, 2, 1, ""), ("ghf", 3, 2, 2, ""), ("uhf", 4, 2, 1, "same")] if thorough else [])
+    for (kind, n, na, nb, v) in hist:
+        out.append(dict(part="history", kind=kind, n=n, na=na, nb=nb, variant=v, n_chol=2, length=3 if thorough else 2, seed=seed, tier=tier))
     out.sort(key=lambda c: (c["part"] != "congruence", -c["n"], c.get("kind", "")))
     return out
 
@@ -410,7 +547,13 @@ def run(ctx):
                 "Hamiltonian; in every new state calc_overlap / calc_energy / calc_force_bias on 4 generic complex walkers and the dense trial, rotated "
                 "by the same matrix, equal the initial state's (ratio 1), on two routes: intermediates built on a pristine dict, and the parent state's dict "
                 "WITH its intermediates passed through rotate_orbs and rebuilt by the public build_measurement_intermediates (stale entries are named by "
-                "comparing the two dicts key by key); re-reached states compare their Hamiltonians (confluence)")
+                "comparing the two dicts key by key); re-reached states compare their Hamiltonians (confluence); "
+                "part C: (trial kind, size) x source-dict flavour {raw integrals, with measurement intermediates} x route {same-source: every matrix "
+                "applied to the SAME source dict; chained: the result rotated again} x every word of length 1..L (L = 2 quick, 3 thorough) over the menu "
+                "{orthogonal frame, dense invertible non-orthogonal, identity, cyclic permutation, Givens}; after EVERY rotate_orbs call the dict passed "
+                "in has the same keys and every array bitwise equal to a separately held NumPy copy, the returned h1/chol equal the congruence computed "
+                "from the held original (with the matrix / with the product), and overlap, energy and force bias measured from the source dict after the "
+                "calls equal those measured before")
     ctx.assume("basis change for an orthogonal C: one-body and Cholesky matrices by the library (C^T X C), orbital coefficient vectors (trial orbitals, every NOCI determinant, walkers) by phi' = C^T phi; GHF orbitals by blockdiag(C^T, C^T)")
     ctx.assume("multi-Slater and CI-type trials are tied to their own orbital basis and are outside the property's quantifier (orbital-based trials)")
     ctx.assume("quadratic-in-C / linear-in-X degree class: the unit x polarisation sets decide the congruence for every real C and X; dense members guard against other implementations")
@@ -419,12 +562,18 @@ def run(ctx):
     if ctx.violations:
         return
     ctx.require_guard("congruence_cases_with_nonsymmetric_result", "confluence_checks", "states_with_nonsymmetric_rotation", "states_at_depth_3",
-                      "carried_dict_states_measured")
+                      "carried_dict_states_measured", "history_words_same-source", "history_words_chained",
+                      "history_calls_on_a_dict_rotated_from_before")
 
 
 def replay(case):
     cfg = dict(case)
     n, seed = cfg["n"], cfg["seed"]
+    if cfg["part"] == "history":
+        sub = {k: v for k, v in cfg.items() if k not in ("what", "flavour", "route", "word")}
+        sub["only"] = [cfg["flavour"], cfg["route"], [int(x) for x in cfg["word"]]]
+        r = job_history(sub)
+        return (len(r.violations) > 0, {"violations": [dict(signature=x["signature"], detail=x["detail"]) for x in r.violations][:1]})
     if cfg["part"] == "congruence":
         sub = {k: v for k, v in cfg.items() if k not in ("slot", "X", "C")}
         r = job_congruence(sub)
